@@ -863,6 +863,10 @@ def CustomObject(type='x-custom-type', properties=None, extension_name=None, is_
         )
 
         if extension_name:
+            # Named after the UUID of an "extension-definition--<UUID>" name
+            # (after the whole name, if it is of the "...-ext" kind).
+            extension = extension_name.split('--')[-1].replace('-', '')
+
             @CustomExtension(type=extension_name, properties={})
             class NameExtension:
                 if is_sdo:
@@ -870,8 +874,6 @@ def CustomObject(type='x-custom-type', properties=None, extension_name=None, is_
                 else:
                     extension_type = 'new-sro'
 
-            extension = extension_name.split('--')[1]
-            extension = extension.replace('-', '')
             NameExtension.__name__ = 'ExtensionDefinition' + extension
             cls.with_extension = extension_name
         try:
